@@ -238,6 +238,7 @@ type HookCall struct {
 	Name string
 	Step int64
 	Tag  string // sync the call was made under (harness-assigned), if known
+	GID  int64  // goroutine that made the call
 }
 
 // SubNode is the subscriber side: real dagsync.Subscriber over a simulated
@@ -272,7 +273,7 @@ func (s *SubNode) blockHook(p peer.ID, c cid.Cid, act dagsync.SegmentSyncActions
 		s.W.R.ParkHook("hook.call", pn+" "+name, nil)
 	}
 	s.mu.Lock()
-	s.hooks = append(s.hooks, HookCall{Peer: pn, Cid: c, Name: name, Step: s.W.R.Step()})
+	s.hooks = append(s.hooks, HookCall{Peer: pn, Cid: c, Name: name, Step: s.W.R.Step(), GID: simkit.CurGID()})
 	s.mu.Unlock()
 	s.W.R.Logf("hook."+pn, "block %s", name)
 	if err, ok := s.FailAt[c]; ok {
@@ -385,6 +386,11 @@ func storeTreeNode(p *PubNode, name string, kids []cid.Cid) cid.Cid {
 // drained (an unread listener queue would otherwise keep its goroutine),
 // the subscriber is closed.
 func (w *World) Shutdown(sub *SubNode, ls ...*listener) {
+	if w.R.Failed() {
+		// A violation was found: goroutines may be parked while holding
+		// locks; leave them (the bubble's end is recovered by the worker).
+		return
+	}
 	w.R.PassThrough(true)
 	for _, p := range w.R.AllParked() {
 		w.R.Release(p, nil)
